@@ -3,6 +3,7 @@ import PqlModel.Props.C05LexStatement
 import PqlModel.Props.C04Shape
 import PqlModel.Props.C04ShapeQuery
 import PqlModel.Props.C04ShapeCx
+import PqlModel.Props.C04Numbers
 #print axioms Pql.C04.C04_decode_string
 #print axioms Pql.C04.C04_decode_identifier
 #print axioms Pql.C04.C04_decode_string_clickhouse_partial
@@ -34,3 +35,8 @@ import PqlModel.Props.C04ShapeCx
 #print axioms Pql.C04.C04_name_cx_scope
 #print axioms Pql.C04.C04_slice_cx
 #print axioms Pql.C04.C04_render_cx
+#print axioms Pql.Glue.C04_number_token_roundtrip
+#print axioms Pql.Glue.sqlNumValue_eq_decValue
+#print axioms Pql.Glue.sqlNumValue_eq_of_numOK
+#print axioms Pql.Glue.C04_number_literal_roundtrip
+#print axioms Pql.Glue.sqlNumValue_ne_decValue
